@@ -131,6 +131,8 @@ pub struct RealP {
     pub kind: RealKind,
     pub name: String,
     pub instr: Instr,
+    /// value reported by `known_optimum` (default: unreachable, so `OptimumReached` never fires)
+    pub optimum: f64,
 }
 
 impl RealP {
@@ -141,10 +143,11 @@ impl RealP {
             kind,
             name: format!("real-{kind:?}-{dim}"),
             instr: Instr::new(),
+            optimum: -1e300,
         }
     }
     pub fn with_domain(domain: Vec<Range<f64>>, kind: RealKind) -> Self {
-        Self { dim: domain.len(), domain, kind, name: format!("real-{kind:?}"), instr: Instr::new() }
+        Self { dim: domain.len(), domain, kind, name: format!("real-{kind:?}"), instr: Instr::new(), optimum: -1e300 }
     }
     pub fn f(&self, x: &[f64]) -> f64 {
         let v = match self.kind {
@@ -200,8 +203,7 @@ impl ObjectiveFunction for RealP {
 }
 impl KnownOptimumProblem for RealP {
     fn known_optimum(&self) -> SingleObjective {
-        // a value no run can reach, so that `OptimumReached` never fires unless a check wants it to
-        SingleObjective::try_from(-1e300).unwrap()
+        SingleObjective::try_from(self.optimum).unwrap()
     }
 }
 
